@@ -362,6 +362,7 @@ func c09() {
 			run.Sample(3, map[string]any{"desc": pl.desc, "calls": pl.calls, "threads": pl.threads})
 		}
 	})
+	c09Concurrent(run, pols, probeNrs)
 	for k, v := range refusals {
 		run.Count("refusal:"+k, v)
 	}
@@ -375,7 +376,9 @@ func c09() {
 		}
 		run.Require("nil_returns_checked", 30)
 		run.Require("supported_calls", 30)
+		run.Require("concurrent_histories", 100)
+		run.Require("overlapping_call_pairs", 5)
 	}
 	run.Finish(run.Counter("calls"), int64(len(distinct)),
-		"histories of load/Supported/SetNoNewPrivs calls on pinned OS threads in fresh child processes: all 13 flag words (incl. SPEC_ALLOW, TSYNC_ESRCH, NEW_LISTENER combinations) x NNP x {valid, invalid name, invalid action, oversize, exactly 4096 instructions} x {root, uid 65534} single-call histories, the divergent-filter thread-sync pattern, a thread-sync chain, and PRNG histories of 1..6 calls over 2..5 threads; per-thread kernel state and probe outcomes compared around every call; distinct = distinct call sequences")
+		"histories of load/Supported/SetNoNewPrivs calls on pinned OS threads in fresh child processes: all 13 flag words (incl. SPEC_ALLOW, TSYNC_ESRCH, NEW_LISTENER combinations) x NNP x {valid, invalid name, invalid action, oversize, exactly 4096 instructions} x {root, uid 65534} single-call histories, the divergent-filter thread-sync pattern, a thread-sync chain, and PRNG histories of 1..6 calls over 2..5 threads; per-thread kernel state and probe outcomes compared around every call; plus concurrent histories (2..4 threads calling LoadFilter at the same time, call/return times from one monotonic clock, final per-thread filters read back) checked for linearizability with porcupine against a sequential model of per-thread filter stacks; distinct = distinct call sequences")
 }
